@@ -347,8 +347,10 @@ func (x *Exec) step(fr *frameRun, st *State, instr ssa.Instruction) error {
 		return x.mapUpdate(st, in)
 	case *ssa.Lookup:
 		return x.lookup(st, in)
-	case *ssa.Range, *ssa.Next:
-		return fmt.Errorf("UNSUPPORTED range over map/string")
+	case *ssa.Range:
+		return x.rangeStart(st, in)
+	case *ssa.Next:
+		return x.rangeNext(fr, st, in)
 	}
 	return fmt.Errorf("UNSUPPORTED instruction %T", instr)
 }
@@ -1036,4 +1038,88 @@ func (x *Exec) allocObligation(st *State, pos token.Pos, n *Term, et types.Type)
 	}
 	tb := x.tb
 	x.oblige(st, "alloc", fmt.Sprintf("alloc@%s", x.posStr(pos)), pos, tb.Cmp("bvule", n, x.allocBound))
+}
+
+// Map iteration.  An iterator is the pair (map reference, position); its position is kept in
+// the environment entry of the Range instruction and advanced by every Next.  The key at
+// position i of map r is an uninterpreted function of (r, map-heap version, i): that is
+// exact when the map holds at most one entry (there is one order), and an order would be a
+// hidden assumption beyond that - so every Range carries the obligation len(map) <= 1, and
+// harnesses that iterate maps state that bound.  Only loops that are unrolled may iterate a
+// map (a cut loop would need the position in its invariant).
+func (x *Exec) rangeStart(st *State, in *ssa.Range) error {
+	tb := x.tb
+	mt, ok := in.X.Type().Underlying().(*types.Map)
+	if !ok {
+		return fmt.Errorf("UNSUPPORTED range over string")
+	}
+	m, err := x.operand(st, in.X)
+	if err != nil {
+		return err
+	}
+	l := x.mapLen(st, mt, m.C[0])
+	x.oblige(st, "safe", fmt.Sprintf("bound.maprange@%s", x.posStr(in.Pos())), in.Pos(), tb.Cmp("bvule", l, tb.BV(64, 1)))
+	st.env[in] = &Val{T: in.Type(), C: []*Term{m.C[0], tb.BV(64, 0)}}
+	return nil
+}
+
+func (x *Exec) mapLen(st *State, mt *types.Map, ref *Term) *Term {
+	tb := x.tb
+	if ref.IsConst() && ref.Val == 0 {
+		return tb.BV(64, 0)
+	}
+	l := tb.App("maplen:"+typeKey(mt), 64, ref, x.mapVersion(st, mt))
+	x.fact(tb.Cmp("bvule", l, tb.BV(64, 1<<sizeBits-1)))
+	x.fact(tb.Implies(tb.Eq(ref, tb.BV(64, 0)), tb.Eq(l, tb.BV(64, 0))))
+	return l
+}
+
+func (x *Exec) rangeNext(fr *frameRun, st *State, in *ssa.Next) error {
+	tb := x.tb
+	if in.IsString {
+		return fmt.Errorf("UNSUPPORTED range over string")
+	}
+	rg, ok := in.Iter.(*ssa.Range)
+	if !ok {
+		return fmt.Errorf("UNSUPPORTED iterator %T", in.Iter)
+	}
+	for _, l := range fr.loops {
+		if l.body[in.Block()] && l.spec != nil && len(l.spec.Invs) > 0 {
+			return fmt.Errorf("UNSUPPORTED map iteration in a loop cut by an invariant")
+		}
+	}
+	mt := rg.X.Type().Underlying().(*types.Map)
+	it := st.env[rg]
+	if it == nil {
+		return fmt.Errorf("iterator state lost (merge)")
+	}
+	ref, idx := it.C[0], it.C[1]
+	ver := x.mapVersion(st, mt)
+	l := x.mapLen(st, mt, ref)
+	okT := tb.Cmp("bvult", idx, l)
+	tk := typeKey(mt)
+	kcs := flatten(mt.Key())
+	key := &Val{T: mt.Key(), C: make([]*Term, len(kcs))}
+	for i, c := range kcs {
+		key.C[i] = tb.ZExt(c.sort, tb.App(fmt.Sprintf("mapkey:%s#%d", tk, i), c.hsort(), ref, ver, idx))
+		if c.sort == 0 {
+			return fmt.Errorf("UNSUPPORTED bool map key")
+		}
+	}
+	var kid *Term
+	if len(kcs) == 1 {
+		kid = key.C[0]
+		dn := "M:" + tk + "#dom"
+		dm := x.heap(st, dn, 2, 0)
+		x.assumeIn(st, tb.Implies(okT, dm.Select(x, []*Term{ref, kid})))
+	} else {
+		kid = tb.App("mapkeyid:"+tk, 64, ref, ver, idx)
+	}
+	for _, f := range x.validity(key, x.refOK(st)) {
+		x.assumeIn(st, tb.Implies(okT, f))
+	}
+	val := x.load(st, &Addr{prefix: "M:" + tk + "#v", keys: []*Term{ref, kid}}, mt.Elem())
+	st.env[rg] = &Val{T: rg.Type(), C: []*Term{ref, tb.Add(idx, tb.BV(64, 1))}}
+	st.env[in] = &Val{T: in.Type(), Tup: []*Val{x.boolVal(okT), key, val}}
+	return nil
 }
